@@ -1794,30 +1794,41 @@ def ignore_comments(string):
     """Ignore comments in given string by replacing them with spaces. This
     reduces the parsing time by roughly a factor of two.
 
+    New lines inside comments are kept, so that line numbers in error
+    messages refer to the original text, and comment delimiters inside
+    character strings ("...") are not comments.
+
     """
 
     comments = [
         (mo.start(), mo.group(0))
-        for mo in re.finditer(r'(/\*|\*/|--|\n)', string)
+        for mo in re.finditer(r'(/\*|\*/|--|\n|")', string)
     ]
 
     comments.sort()
 
+    def blank(text):
+        return re.sub(r'[^\n]', ' ', text)
+
     in_single_line_comment = False
+    in_string = False
     multi_line_comment_depth = 0
     start_offset = 0
     non_comment_offset = 0
     chunks = []
 
     for offset, kind in comments:
-        if in_single_line_comment:
+        if in_string:
+            if kind == '"':
+                in_string = False
+        elif in_single_line_comment:
             if kind in ['--', '\n']:
                 in_single_line_comment = False
 
                 if kind == '--':
                     offset += 2
 
-                chunks.append(' ' * (offset - start_offset))
+                chunks.append(blank(string[start_offset:offset]))
                 non_comment_offset = offset
         elif multi_line_comment_depth > 0:
             if kind == '/*':
@@ -1827,8 +1838,10 @@ def ignore_comments(string):
 
                 if multi_line_comment_depth == 0:
                     offset += 2
-                    chunks.append(' ' * (offset - start_offset))
+                    chunks.append(blank(string[start_offset:offset]))
                     non_comment_offset = offset
+        elif kind == '"':
+            in_string = True
         elif kind == '--':
             in_single_line_comment = True
             start_offset = offset
